@@ -62,7 +62,7 @@ PROPS = {
     },
     'C01': {
         'level': 'proof',
-        'coq': ['Properties/C01.v', 'Properties/C01_layout.v'],
+        'coq': ['Properties/C01.v', 'Properties/C01_layout.v', 'Properties/C01_reorder.v'],
         'coq_gen': ['Properties/C07_gen.v'],
         'rule': ("random cell DAGs (1..120 cells quick, sizes crossing 255/256, chains of depth 1023/1024, wide fans, heavy "
                  "sharing, all bit lengths, valid exotic cells) serialised with the 8 option combinations: the bytes of "
@@ -75,11 +75,17 @@ PROPS = {
                  "fields, stored hashes, several roots) parse to the intended hash and structure. A class is (family, "
                  "options, size bucket, outcome)."),
         'explanation': ("coq/Properties/C01.v: the parser inverts the BOC layout for every header variant and every "
-                        "topological order (parse_layout); per output the model-side certificate is evaluated by the "
-                        "extracted parser (translation-validation style for the serialiser, see DESIGN.md)."),
+                        "topological order (parse_layout).  coq/Properties/C01_reorder.v: for every post-order cell array and "
+                        "arbitrary weights, reorderCells/revisit never run out of fuel, emit every reachable cell exactly once "
+                        "(a permutation of the imported cells), remap every reference exactly once to a strictly smaller new "
+                        "index (so the emitted order has references strictly forward: the premise of parse_layout) and return "
+                        "the roots' new indices; importRoots/importCell establish the precondition (reorder_valid, "
+                        "import_roots_valid).  That the emitted bytes are the layout of the reordered cells is still "
+                        "validated per output by the certificate evaluated with the extracted proved parser."),
         'assumptions': ["fewer than 2^24 cells (WriteInt(refByteSize,3) writes 0 for 4)",
                         "de-duplication is by SHA-256 hash: 'stored once' assumes no collision among the sub-cells",
-                        "the universal claim about the serialiser's reordering is validated per output by a certificate, not proved for all inputs"],
+                        "the reordering (each cell once, references forward, roots remapped) is proved for all inputs; that the byte "
+                        "emission (serializeBoc) writes exactly the layout of the reordered cells is validated per output by a certificate"],
     },
     'C18': {
         'level': 'proof',
